@@ -44,14 +44,15 @@ IMPURE_CALLS = ('random.', 'numpy.random.', 'time.time', 'time.clock', 'time.per
 class AV:
     """abstract value: origins of the object itself; `elem` = abstract value of the objects it contains
     (None: contains nothing mutable); `comps` = per-position values of a tuple-like object"""
-    __slots__ = ('orig', 'elem', 'comps', 'fancy')
+    __slots__ = ('orig', 'elem', 'comps', 'fancy', 'isset')
     DEPTH = 3
 
-    def __init__(self, orig=(F,), elem=None, comps=None, fancy=False):
+    def __init__(self, orig=(F,), elem=None, comps=None, fancy=False, isset=False):
         self.orig = frozenset(orig)
         self.elem = elem
         self.comps = comps
         self.fancy = fancy          # value is a boolean mask / index array (indexing with it copies)
+        self.isset = isset          # value is (may be) a set: iteration order is arbitrary
 
     def join(self, other):
         if other is None:
@@ -65,7 +66,7 @@ class AV:
             elem = self.elem
         else:
             elem = self.elem.join(other.elem)
-        return AV(self.orig | other.orig, elem, comps, self.fancy and other.fancy).cap()
+        return AV(self.orig | other.orig, elem, comps, self.fancy and other.fancy, self.isset or other.isset).cap()
 
     def cap(self, depth=None):
         depth = AV.DEPTH if depth is None else depth
@@ -73,8 +74,8 @@ class AV:
             return self
         if depth <= 1:
             flat = self.elem.flat()
-            return AV(self.orig, AV(flat, None), self.comps, self.fancy)
-        return AV(self.orig, self.elem.cap(depth - 1), self.comps, self.fancy)
+            return AV(self.orig, AV(flat, None), self.comps, self.fancy, self.isset)
+        return AV(self.orig, self.elem.cap(depth - 1), self.comps, self.fancy, self.isset)
 
     def flat(self):
         out = set(self.orig)
@@ -98,10 +99,10 @@ class AV:
 
     def with_elem(self, v):
         """the object after storing v into it"""
-        return AV(self.orig, v if self.elem is None else self.elem.join(v), None, self.fancy).cap()
+        return AV(self.orig, v if self.elem is None else self.elem.join(v), None, self.fancy, self.isset).cap()
 
     def key(self):
-        return (self.orig, self.elem.key() if self.elem is not None else None, self.fancy,
+        return (self.orig, self.elem.key() if self.elem is not None else None, self.fancy, self.isset,
                 tuple(c.key() for c in self.comps) if self.comps is not None else None)
 
     def __eq__(self, o):
@@ -433,7 +434,7 @@ class FunctionAnalysis:
             el = None
             for v in vs:
                 el = v if el is None else el.join(v)
-            return AV([F], el, comps=vs if isinstance(e, ast.Tuple) else None).cap()
+            return AV([F], el, comps=vs if isinstance(e, (ast.Tuple, ast.List)) else None, isset=isinstance(e, ast.Set)).cap()
         if isinstance(e, ast.Dict):
             el = None
             for x in list(e.keys):
@@ -488,7 +489,7 @@ class FunctionAnalysis:
         if isinstance(e, (ast.BinOp,)):
             a = self.expr(e.left, env)
             b = self.expr(e.right, env)
-            return AV([F], None, fancy=a.fancy and b.fancy)
+            return AV([F], None, fancy=a.fancy and b.fancy, isset=(a.isset or b.isset) and isinstance(e.op, (ast.BitOr, ast.BitAnd, ast.Sub, ast.BitXor)))
         if isinstance(e, ast.UnaryOp):
             v = self.expr(e.operand, env)
             return AV([F], None, fancy=v.fancy)
@@ -504,7 +505,7 @@ class FunctionAnalysis:
                 v = self.expr(e.value, env2).join(self.expr(e.key, env2))
             else:
                 v = self.expr(e.elt, env2)
-            return AV([F], v).cap()
+            return AV([F], v, isset=isinstance(e, ast.SetComp)).cap()
         if isinstance(e, ast.Lambda):
             return FRESH
         if isinstance(e, ast.Slice):
@@ -538,10 +539,27 @@ class FunctionAnalysis:
         return False
 
     def check_set_iteration(self, it, env, node):
-        d = frontend.dotted(it.func) if isinstance(it, ast.Call) else None
-        if isinstance(it, ast.Set) or d == 'set' or (isinstance(it, ast.Name) and env.get('__isset__' + it.id)):
-            self.pure.append(dict(line=getattr(node, 'lineno', None), what='iteration over a set (order is arbitrary)', func=self.qual,
-                                  kind='set-order'))
+        """iteration over a set has an arbitrary order: the loop body / comprehension must not depend on it"""
+        v = self.expr(it, env) if not isinstance(it, ast.Name) else env.get(it.id, FRESH)
+        if not v.isset:
+            return
+        ok, why = True, ''
+        if isinstance(node, ast.For):
+            for s in node.body:
+                if isinstance(s, ast.AugAssign) and isinstance(s.op, (ast.Add, ast.Mult, ast.BitOr, ast.BitAnd)) and isinstance(s.target, ast.Name) \
+                        and not any(isinstance(n, ast.Name) and n.id == s.target.id for n in ast.walk(s.value)):
+                    continue        # commutative accumulation
+                if isinstance(s, ast.Expr) and isinstance(s.value, ast.Call) and isinstance(s.value.func, ast.Attribute) and s.value.func.attr in ('add', 'update', 'discard'):
+                    continue        # building another set
+                if isinstance(s, (ast.Raise, ast.Pass)) or (isinstance(s, ast.Expr) and isinstance(s.value, ast.Constant)):
+                    continue
+                ok, why = False, 'statement `%s` may depend on the iteration order' % ast.unparse(s)[:60]
+                break
+        elif isinstance(node, ast.SetComp):
+            ok = True
+        else:
+            ok, why = False, 'an ordered collection is built from a set'
+        self.pure.append(dict(line=getattr(node, 'lineno', None), what='iteration over a set' + ('' if ok else ': ' + why), func=self.qual, kind='set-order', ok=ok))
 
     # ------------------------------------------------------------------ calls
     def call(self, e, env):
@@ -580,8 +598,8 @@ class FunctionAnalysis:
             if m == 'astype':
                 t = ast.unparse(e.args[0]) if e.args else ''
                 return AV([F], None, fancy=('bool' in t or 'int' in t))
-            if m == 'copy':
-                return AV([F], recv.elem)
+            if m in ('copy', 'union', 'intersection', 'difference', 'symmetric_difference'):
+                return AV([F], recv.elem, isset=recv.isset)
             return FRESH
         kind = None
         if d is not None:
@@ -654,7 +672,7 @@ class FunctionAnalysis:
         el = None
         for a in args[:1]:
             el = a.elem
-        return AV([F], el, fancy=fancy)
+        return AV([F], el, fancy=fancy, isset=name in ('set', 'frozenset'))
 
     def repo_call(self, q, e, args, kws, star_kw, env, argnodes):
         s = self.an.summaries.get(q)
@@ -714,7 +732,7 @@ class FunctionAnalysis:
             elif deeper is not None:
                 elem = elem.join(deeper)
             comps = [subst(c, depth) for c in av.comps] if av.comps is not None else None
-            return AV(orig or [F], elem, comps, av.fancy).cap()
+            return AV(orig or [F], elem, comps, av.fancy, av.isset).cap()
         return subst(ret)
 
 
@@ -751,8 +769,8 @@ def run(prop, tier, seed, known):
             continue
         for i, p in enumerate(ps):
             per_fn.setdefault(q, []).append(dict(
-                id='%s#pure:%d' % (q, i), kind='frame', label='pure', props=['C15'], line=p['line'],
-                note='%s in %s' % (p['what'], p['func']), expect='unsat', verdict='refuted', backend='origin-analysis', time=0.0,
+                id='%s#pure:%s%d' % (q, 'set-order' if p.get('kind') == 'set-order' else '', i), kind='frame', label='pure', props=['C15'], line=p['line'],
+                note='%s in %s' % (p['what'], p['func']), expect='unsat', verdict='discharged' if p.get('ok') else 'refuted', backend='origin-analysis', time=0.0,
                 model=dict(site=p['what'], function=p['func'], line=p['line']), goal='no global state / nondeterminism source', finding=None))
     # every function gets one summary obligation so that a function without mutation sites is still counted as analysed
     for m in frontend.MODULES:
